@@ -39,6 +39,8 @@ func opName(op string) string {
 		return "Sign"
 	case "RD":
 		return "Redact"
+	case "RW":
+		return "NewEventFromTrustedJSONWithEventID"
 	}
 	return op
 }
@@ -179,9 +181,9 @@ func checkDomainless(r *rec, p gmsl.PDU, f *fields, b *built, after string) *hx.
 	if len(f.Auth) == 0 || f.Auth[0] != createID {
 		return fail("C03/domainless/after="+after+"/first-auth-event",
 			fmt.Sprintf("room version %s: AuthEventIDs() after %s does not report the create event %s first", r.Ver, after, createID),
-			append([]string{createID}, b.pe.AuthEvents.([]string)...), f.Auth)
+			append([]string{createID}, strs(b.pe.AuthEvents)...), f.Auth)
 	}
-	if want := append([]string{createID}, b.pe.AuthEvents.([]string)...); !reflect.DeepEqual(want, f.Auth) {
+	if want := append([]string{createID}, strs(b.pe.AuthEvents)...); !reflect.DeepEqual(want, f.Auth) {
 		return fail("C03/domainless/after="+after+"/auth-events", "AuthEventIDs() is not the create event followed by the listed auth events", want, f.Auth)
 	}
 	return nil
@@ -268,7 +270,7 @@ func replayC03(i int, raw json.RawMessage, seed int64) hx.Result {
 		return replayProbe(&r)
 	}
 	nt := ntOf(&r)
-	if res := runC03(&r, seed); res != nil {
+	if res := runC03(&r, seed, i); res != nil {
 		res.NT = nt
 		if r.Refuse {
 			res.Key = "C03/build-or-refuse/num=" + r.Proto.Num + "/" + strings.TrimPrefix(res.Key, "C03/")
@@ -315,7 +317,70 @@ func algoOf(ver string) int {
 	return 5
 }
 
-func runC03(r *rec, seed int64) *hx.Result {
+// unobserved repeats the behaviour on a freshly built event WITHOUT reading any accessor between the calls
+// (nothing is cached before the operations run) and compares the outcome with the observed run.
+func unobserved(r *rec, impl gmsl.IRoomVersion, b *built, base *fields, idx int) *hx.Result {
+	if len(r.Steps) == 0 || idx%3 != 0 {
+		return nil
+	}
+	p, err := b.build(r.Ver)
+	if err != nil {
+		return fail("C03/build/error", "second EventBuilder.Build of the same proto-event fails: "+err.Error(), nil, err.Error())
+	}
+	red := false
+	for _, s := range r.Steps {
+		if p, err = applyOp(r.Ver, impl, p, s.Op); err != nil || p == nil {
+			return fail("C03/unobserved/op-error/"+opName(s.Op), fmt.Sprintf("%s fails when no accessor was read before: %v", opName(s.Op), err), nil, fmt.Sprint(err))
+		}
+		red = s.Red
+	}
+	f, acc, pan := observe(p)
+	if pan != "" {
+		return fail("C03/unobserved/panic/"+acc, acc+"() panics after operations on an event whose accessors were never read: "+pan, nil, pan)
+	}
+	want := *base
+	if r.IDFmt == 1 {
+		want.ID = f.ID // random by design: two builds differ
+	}
+	if p.Redacted() != red {
+		return fail("C03/unobserved/redacted-flag", "Redacted() differs from the observed run", red, p.Redacted())
+	}
+	if name, w, g := compareFields(&want, &f, !red); name != "" {
+		return fail("C03/unobserved/"+name, fmt.Sprintf("%s after the same operations differs when no accessor was read in between (room version %s)", name, r.Ver), w, g)
+	}
+	return checkDomainless(r, p, &f, b, "unobserved-run")
+}
+
+// checkPlainBuilder: IRoomVersion.NewEventBuilder() filled field by field builds the same event as
+// NewEventBuilderFromProtoEvent.
+func checkPlainBuilder(r *rec, b *built, base *fields, p gmsl.PDU) *hx.Result {
+	impl := gmsl.MustGetRoomVersion(gmsl.RoomVersion(r.Ver))
+	if isDomainless(r.Ver) && b.pe.Type == spec.MRoomCreate && b.pe.StateKey != nil && *b.pe.StateKey != "" {
+		return nil // composed by the harness (Build refuses it)
+	}
+	eb := impl.NewEventBuilder()
+	eb.SenderID, eb.RoomID, eb.Type, eb.StateKey = b.pe.SenderID, b.pe.RoomID, b.pe.Type, b.pe.StateKey
+	eb.PrevEvents, eb.AuthEvents, eb.Redacts, eb.Depth = b.pe.PrevEvents, b.pe.AuthEvents, b.pe.Redacts, b.pe.Depth
+	eb.Content, eb.Unsigned = b.pe.Content, b.pe.Unsigned
+	q, err := eb.Build(b.now, spec.ServerName(b.signer.name), b.signer.key, b.signer.priv)
+	if err != nil {
+		return fail("C03/entry/NewEventBuilder/error", "Build through NewEventBuilder() fails where NewEventBuilderFromProtoEvent succeeds: "+err.Error(), nil, err.Error())
+	}
+	f, acc, pan := observe(q)
+	if pan != "" {
+		return fail("C03/entry/NewEventBuilder/panic/"+acc, acc+"() panics: "+pan, nil, pan)
+	}
+	want := *base
+	if r.IDFmt == 1 {
+		want.ID = f.ID
+	}
+	if name, w, g := compareFields(&want, &f, true); name != "" {
+		return fail("C03/entry/NewEventBuilder/"+name, name+" of the event built through NewEventBuilder() differs from NewEventBuilderFromProtoEvent's", w, g)
+	}
+	return nil
+}
+
+func runC03(r *rec, seed int64, idx int) *hx.Result {
 	impl, err := gmsl.GetRoomVersion(gmsl.RoomVersion(r.Ver))
 	if err != nil {
 		return fail("C03/version/unregistered", "room version "+r.Ver+" is not registered", nil, nil)
@@ -338,7 +403,7 @@ func runC03(r *rec, seed int64) *hx.Result {
 	}
 	// the built event carries what the proto-event said
 	want := fields{ID: base.ID, Type: b.pe.Type, Sender: b.pe.SenderID, SK: b.pe.StateKey, Content: b.pe.Content,
-		Depth: b.pe.Depth, TS: b.now.UnixMilli(), Prev: b.pe.PrevEvents.([]string), Auth: b.pe.AuthEvents.([]string),
+		Depth: b.pe.Depth, TS: b.now.UnixMilli(), Prev: strs(b.pe.PrevEvents), Auth: strs(b.pe.AuthEvents),
 		Redacts: b.pe.Redacts, Room: base.Room}
 	if b.room != nil {
 		want.Room = b.room.id
@@ -361,6 +426,21 @@ func runC03(r *rec, seed int64) *hx.Result {
 	ids := []string{base.ID}
 	classes := []int{1}
 	for n, s := range r.Steps {
+		recv := p
+		if s.Op == "RH" {
+			// the sibling entry point of the headered form: the event ID handed over explicitly
+			var id string
+			if pan := guard(func() { id = p.EventID() }); pan != "" {
+				return fail("C03/panic/after="+opName(s.Op)+"/EventID", "EventID() panics: "+pan, nil, pan)
+			}
+			w, err := impl.NewEventFromTrustedJSONWithEventID(id, append([]byte(nil), p.JSON()...), p.Redacted())
+			if err != nil || w == nil {
+				return fail("C03/op-error/"+opName("RW"), fmt.Sprintf("NewEventFromTrustedJSONWithEventID fails on the event's own JSON and ID (room version %s): %v", r.Ver, err), nil, fmt.Sprint(err))
+			}
+			if _, res := checkStep(r, &b, &base, w, "RW", p.Redacted()); res != nil {
+				return res
+			}
+		}
 		q, err := applyOp(r.Ver, impl, p, s.Op)
 		if err != nil {
 			return fail("C03/op-error/"+opName(s.Op), fmt.Sprintf("%s fails on a built event (room version %s, step %d): %v", opName(s.Op), r.Ver, n+1, err), nil, err.Error())
@@ -373,6 +453,21 @@ func runC03(r *rec, seed int64) *hx.Result {
 		if res != nil {
 			return res
 		}
+		if recv != p {
+			// the object the call was made on is still an event with the same identity (whether the call works on
+			// a copy or in place)
+			rf, acc, pan := observe(recv)
+			if pan != "" {
+				return fail("C03/receiver/after="+opName(s.Op)+"/"+acc+":panic",
+					fmt.Sprintf("room version %s: %s() panics on the event %s was called on: %s", r.Ver, acc, opName(s.Op), pan), nil, pan)
+			}
+			if rf.ID != base.ID {
+				return fail("C03/receiver/after="+opName(s.Op)+"/event_id", "EventID() of the event the call was made on changed", base.ID, rf.ID)
+			}
+			if res := checkDomainless(r, recv, &rf, &b, opName(s.Op)+"(receiver)"); res != nil {
+				return res
+			}
+		}
 		ids = append(ids, f.ID)
 		classes = append(classes, s.Idc)
 		// equality pattern of the real IDs = equality pattern of the identity tokens
@@ -382,6 +477,9 @@ func runC03(r *rec, seed int64) *hx.Result {
 				return fail("C03/id/pattern/"+opName(s.Op), "equality pattern of event IDs differs from the identity tokens'", classes, ids)
 			}
 		}
+	}
+	if res := unobserved(r, impl, &b, &base, idx); res != nil {
+		return res
 	}
 	if r.Fam != "sib" {
 		return nil
@@ -411,6 +509,9 @@ func runC03(r *rec, seed int64) *hx.Result {
 	}
 	if len(r.Steps) == 0 {
 		if res := checkAddAuthEvents(r, &b); res != nil {
+			return res
+		}
+		if res := checkPlainBuilder(r, &b, &base, p); res != nil {
 			return res
 		}
 	}
